@@ -83,6 +83,26 @@ def build_history(case):
             desc["silent"] = False
             hist = [(p0, {"kind": "initial"}), (p1, desc)]
             prog = p1
+    if case["idx"] % 8 == 4:
+        # aimed: a plain helper is the default value of a parameter of a memento function that does not name it anywhere
+        # else; the helper's body is edited
+        nodes = prog["nodes"]
+        cands = [(u, t) for u in range(len(nodes)) for t in range(u + 1, len(nodes))
+                 if nodes[u]["kind"] == "memento" and nodes[u]["version"] is None and nodes[u].get("cbdefault") is None
+                 and nodes[t]["kind"] == "plain" and nodes[t]["mod"] == nodes[u]["mod"] and nodes[u]["mod"] in ("a", "b")
+                 and not nodes[t].get("prev")]
+        if cands:
+            u, t = rng.choice(cands)
+            nodes[u]["calls"] = [c for c in nodes[u]["calls"] if c["t"] != t]
+            if nodes[u]["nested"] and nodes[u]["nested"].get("call") == t:
+                nodes[u]["nested"] = None
+            nodes[u]["cbdefault"] = t
+            res = progs.apply_edit(rng, prog, rng.choice(["const", "op"]), force_node=t)
+            if res is not None:
+                p1, desc = res
+                desc["silent"] = False
+                hist = [(prog, {"kind": "initial"}), (p1, desc)]
+                prog = p1
     if case["idx"] % 8 == 2:
         # aimed: two aliases through which one function calls two different functions exchange their targets
         made = progs.make_alias_swap(rng, prog)
